@@ -271,6 +271,20 @@ def rule_cli_guard(ctx, R):
         if s["key"].startswith("daachorse::") and len(s["args"]) == 2:
             ctx.check(m(Par(pma), s["args"][0]) and m(Par(line), s["args"][1]), "CLI-GUARD", b, "search-on-line:" + s["name"], b.loc(s["bb"]),
                       "searches must run on the `line` parameter with the given automaton")
+    # a line is dismissed only by the automaton: no path from the entry to a return avoids every search on (pma, line)
+    searches = [s["bb"] for s in S.calls if s["key"].startswith("daachorse::") and len(s["args"]) == 2
+                and m(Par(pma), s["args"][0]) and m(Par(line), s["args"][1])]
+    if searches:
+        # (decided under "the line is not empty": patterns are non-empty, so an empty line may be dismissed without a search)
+        def line_empty(t):
+            return (t[0] == "call" and isinstance(t[1], str) and core.callee_base(t[1]).endswith("::is_empty") and len(t[2]) == 1 and m(Par(line), t[2][0])) or \
+                (t[0] == "bin" and t[1] == "Eq" and any(x[0] == "call" and isinstance(x[1], str) and core.callee_base(x[1]).endswith("::len")
+                                                        and x[2] and m(Par(line), x[2][0]) for x in (t[2], t[3])) and any(is_const(x, 0) for x in (t[2], t[3])))
+        free = cond.explore(root, [0], [(line_empty, False)], stop=searches)
+        bad = sorted(r for r in b.return_blocks() if free is None or (r in free and r not in searches))
+        ctx.check(not bad, "CLI-GUARD", b, "dismissed-only-by-search", b.loc(bad[0]) if bad else b.span,
+                  "every path through find_and_output must consult the automaton on the line before returning (a pre-filter that returns early "
+                  "drops matching lines); %d return(s) reachable without a search" % len(bad))
 
 
 def rule_cli_pats(ctx, R):
@@ -390,6 +404,22 @@ def rule_cli_lines(ctx, R):
         ctx.check(okt, "CLI-FLAGS", b, "line-number-iff-flag", loc, "line numbers are passed exactly when -n/--line-number is set")
         ctx.check(m(F(ANY, "color"), s["args"][pn["color"]]), "CLI-FLAGS", b, "color-from-args", loc, "the colour mode passed on is args.color")
     ctx.check(len(calls) == 2, "CLI-LINES", b, "two-line-loops", b.span, "one per-line loop for stdin and one for files expected; found %d" % len(calls))
+    # standard input is read exactly when no file is named; named files are read whenever there are any
+    def files_empty(t):
+        of_files = lambda y: any(x[0] == "field" and x[3] == "files" for x in walk(y))
+        if t[0] == "call" and isinstance(t[1], str) and core.callee_base(t[1]).endswith("::is_empty") and len(t[2]) == 1:
+            return of_files(t[2][0])
+        return t[0] == "bin" and t[1] == "Eq" and any(is_const(x, 0) for x in (t[2], t[3])) and \
+            any(x[0] == "call" and isinstance(x[1], str) and core.callee_base(x[1]).endswith("::len") and x[2] and of_files(x[2][0]) for x in (t[2], t[3]))
+    stdin_calls = [s for s in calls if s["args"][pn["filename"]][0] == "agg" and s["args"][pn["filename"]][2] == "None"]
+    file_calls = [s for s in calls if s not in stdin_calls]
+    if len(calls) == 2 and len(stdin_calls) == 1:
+        ve = cond.explore(S.root, [0], [(files_empty, True)])
+        vn = cond.explore(S.root, [0], [(files_empty, False)])
+        oks = ve is not None and vn is not None and stdin_calls[0]["bb"] in ve and stdin_calls[0]["bb"] not in vn and \
+            all(s["bb"] in vn for s in file_calls)
+        ctx.check(oks, "CLI-LINES", b, "stdin-iff-no-files", b.loc(stdin_calls[0]["bb"]),
+                  "standard input must be searched exactly when no file argument is given, and the named files otherwise")
     # ---- pattern collection guards: -f lines and -p pieces are kept iff non-empty, unmodified
     adds = coll.additions(S, lambda t: t[0] == "var")
     for a in adds:
